@@ -59,9 +59,17 @@ impl Cell {
 
             assert!(!state.is_writing, "currently writing to cell");
 
-            state.is_reading += 1;
             state.read_locations.track(location, &execution.threads);
-            state.track_read(&execution.threads);
+
+            // A race is reported by a panic. Check before the cell is marked as
+            // being read (the guard that unmarks it does not exist yet), and
+            // do not check while a panic is unwinding: a destructor that
+            // accesses the cell would panic again and abort the process.
+            if !std::thread::panicking() {
+                state.track_read(&execution.threads);
+            }
+
+            state.is_reading += 1;
 
             Reading { state: self.state }
         })
@@ -75,9 +83,14 @@ impl Cell {
             assert!(state.is_reading == 0, "currently reading from cell");
             assert!(!state.is_writing, "currently writing to cell");
 
-            state.is_writing = true;
             state.write_locations.track(location, &execution.threads);
-            state.track_write(&execution.threads);
+
+            // See `start_read`.
+            if !std::thread::panicking() {
+                state.track_write(&execution.threads);
+            }
+
+            state.is_writing = true;
 
             Writing { state: self.state }
         })
